@@ -55,9 +55,9 @@ PROPS = {
         "partial": ["sampling and hashing clauses conditional on #E = h*r"],
     },
     "C08": {
-        "modules": ["PP.Props.C08"], "level": "proof", "technique": "Lean 4 proof (Montgomery REDC, binary Euclid with fuel adequacy, limb-level arithmetic) + differential correspondence on raw limbs",
+        "modules": ["PP.Props.C08", "PP.Props.C08Limb"], "level": "proof", "technique": "Lean 4 proof (Montgomery REDC, binary Euclid with fuel adequacy, limb-level arithmetic) + differential correspondence on raw limbs",
         "text": "Montgomery-level model with the EXTRACTED MODULUS/R/R2/INV: add/sub/neg/double/mul/square/pow(any limb count)/inverse/from_repr/into_repr/zero test/order equal integer arithmetic mod q, r (bijection to the canonical model Zp), inverse fails only for 0 (fuel adequacy proved); representation type = unsigned 384/256-bit integers under add/sub/shifts/halve/double/bit length/parity/compare/byte I/O for any limb count; all hard-coded constants decoded and checked in the kernel." + DIFF,
-        "note": "the proc-macro's unrolled limb-level mul/square/mont_reduce is modelled by integer-level word-by-word REDC (same quotient digits), tied by raw-limb differential runs",
+        "note": "the proc-macro's unrolled limb-level mul_assign/square/mont_reduce are EXTRACTED from the macro-expanded source as a straight-line IR (one instruction per Rust statement), proved literally equal to a Lean generator for n limbs, whose interpretation is proved equal to the integer-level REDC for every n (PP.Props.C08Limb); trusted: the IR interpreter's reading of adc/mac_with_carry (their source text is checked by the translator)",
     },
     "C09": {
         "modules": ["PP.Props.C09"], "level": "proof", "technique": "Lean 4 proof (CommRing/Field instances on the model's own operations, isomorphism with AdjoinRoot, Frobenius by table recurrences checked in the kernel) + differential correspondence",
